@@ -43,6 +43,9 @@ def is_numeric(te, root, leaf):
     return t.endswith('::Felt') or t in dataflow._PRIMS
 
 
+WORK_BOUND = 1 << 24
+
+
 def upper_bounds(db, guards, te=None, root=None):
     """canonical field -> list of guards giving it an upper bound (LE/LT field ; const) and equalities field==field"""
     ub, eq = {}, []
@@ -56,7 +59,11 @@ def upper_bounds(db, guards, te=None, root=None):
         rf = {fieldflow.canon(x) for x in r if x.startswith('a') and num(x)}
         if g.rel in ('LE', 'LT') and len(lf) == 1 and not rf and any(x.startswith('val:') for x in r) \
                 and not any(x.startswith('op:') for x in l):
-            ub.setdefault(next(iter(lf)), []).append(g)
+            # a bound only limits the work if it is small: `address < 2^64` validates an address, it does not make a
+            # loop or an allocation of that many elements acceptable
+            vals = [int(x[4:]) for x in r if x.startswith('val:') and x[4:].lstrip('-').isdigit()]
+            if vals and max(vals) <= WORK_BOUND:
+                ub.setdefault(next(iter(lf)), []).append(g)
         if g.rel == 'EQ' and len(lf) == 1 and len(rf) == 1 and not any(x.startswith('op:') for x in l | r):
             eq.append((next(iter(lf)), next(iter(rf)), g))
     return ub, eq
